@@ -147,6 +147,14 @@ func checkC18(c c18Case) (Outcome, error) {
 		}
 	}
 	out := Outcome{NonTrivial: sharing && len(distinctTests) >= 2, Classes: []string{fmt.Sprintf("goroutines<=%d", bucket(len(c.Tasks))), "gomaxprocs:" + itoa(c.Procs)}}
+	for _, q := range c.Inputs {
+		switch {
+		case q.N >= 65536:
+			out.Classes = append(out.Classes, "input>=65536bits")
+		case q.N < 9600:
+			out.Classes = append(out.Classes, "input<9600bits")
+		}
+	}
 	for _, tk := range c.Tasks {
 		name := "round"
 		if tk.Test == 17 {
@@ -220,7 +228,15 @@ func checkC18(c c18Case) (Outcome, error) {
 func genC18(t *rapid.T) c18Case {
 	c := c18Case{Procs: rapid.SampledFrom([]int{2, 4, 16}).Draw(t, "gomaxprocs")}
 	ni := rapid.IntRange(1, 4).Draw(t, "inputs")
+	large := rapid.IntRange(0, 5).Draw(t, "large") == 0 // inputs of 72000 .. 1.04 million bits (beyond the sizes at which implementations switch to pooled or chunked buffers)
+	if large {
+		ni = rapid.IntRange(1, 3).Draw(t, "inputs_large")
+	}
 	for i := 0; i < ni; i++ {
+		if large {
+			c.Inputs = append(c.Inputs, gen.DrawSeq(t, 8*uniformInt(t, 9000, 130000, "nbytes_large"), []string{"uniform", "uniform", "biased", "markov"}))
+			continue
+		}
 		nb := uniformInt(t, 1200, 4000, "nbytes")
 		if rapid.IntRange(0, 3).Draw(t, "small") == 0 { // short admissible inputs (>= 128 bits): only the tests whose minimum allows it run on them
 			nb = rapid.IntRange(16, 60).Draw(t, "nbytes_small")
@@ -231,8 +247,14 @@ func genC18(t *rapid.T) c18Case {
 	if rapid.IntRange(0, 4).Draw(t, "many") == 0 {
 		nt = rapid.IntRange(25, 64).Draw(t, "goroutines")
 	}
+	if large && nt > 16 {
+		nt = 16
+	}
 	for i := 0; i < nt; i++ {
 		tk := c18Task{Test: rapid.IntRange(0, 17).Draw(t, "test"), Input: rapid.IntRange(0, ni-1).Draw(t, "input"), Bytes: rapid.Bool().Draw(t, "bytes")}
+		if large && (tk.Test == 12 || tk.Test >= 15) { // on large inputs: not the quadratic linear complexity and not the full rounds (cost)
+			tk.Test = rapid.SampledFrom([]int{0, 1, 2, 3, 4, 5, 6, 7, 8, 10, 11}).Draw(t, "cheap_test")
+		}
 		if tk.Test == 17 {
 			tk.Param = rapid.SampledFrom([]int{3232, 1632, 3216, 808, 3132, 3231, 132}).Draw(t, "shape")
 		}
